@@ -19,7 +19,7 @@
    sibling tree hash recomputed from scratch), independent of parent_hash.rs, and additionally
    by the library's own joiner / observer validation of every exported tree.  Statements only. *)
 From Coq Require Import NArith List.
-From MlsV Require Import Res TreeMathGen TreeMathProofs Tree TreeProofs TreeWF Decap DecapProofs TreeWF5.
+From MlsV Require Import Res TreeMathGen TreeMathProofs Tree TreeProofs TreeWF Decap DecapProofs TreeWF5 NodeVecGen NodeVecGenProofs.
 Import ListNotations.
 Local Open Scope N_scope.
 
@@ -53,6 +53,16 @@ Theorem C08_every_parent_has_members_on_both_sides :
   wf3 t -> wf5 t -> shape_ok t -> tlen t + 2 * N.of_nat (length adds) < 2 ^ 25 ->
   apply_commit t removes updates adds path = TOk (t', added) -> wf5 t'.
 Proof. exact wf5_apply_commit. Qed.
+(* the node-vector operations behind every tree edit, TRANSLATED from tree_kem/node.rs on every run
+   (Gen/NodeVecGen.v), are those of the tree model; batch_edit applies its phases in the model's order *)
+Theorem C08_translated_node_vector_operations_are_the_model : forall t start index leaf,
+  gen_next_empty_leaf t start = next_empty_leaf t start /\
+  gen_insert_leaf t index leaf = insert_leaf t index leaf /\
+  gen_trim t = trim t /\
+  gen_total_leaf_count t = total_leaf_count t /\
+  gen_batch_phases = batch_phases.
+Proof. exact translated_node_vector. Qed.
+
 Print Assumptions C08_every_parent_has_members_on_both_sides.
 
 Theorem C08_initial_tree_wf5 : forall id, wf5 [Some (Leaf id)].
@@ -80,3 +90,4 @@ Print Assumptions C08_proposals_keep_shape.
 Print Assumptions C08_path_update_keeps_shape.
 Print Assumptions C08_new_leaf_leftmost_blank.
 Print Assumptions C08_add_uses_next_empty_leaf.
+Print Assumptions C08_translated_node_vector_operations_are_the_model.
